@@ -282,7 +282,10 @@ CHECKS = {
         harnesses=[H('eval', 'oracle_eval', 4000, 200000, spec_level=True,
                      extra=dict(quick=['-deep', '2000000'], thorough=['-deep', '20000000'])),
                    # fn1.Memoize is a sync.Once cell like fp.Memoize / lazy.Memoize
-                   H('fn', 'oracle_fn', 2000, 100000, spec_level=True, extra=dict(quick=['-focus', 'memo'], thorough=['-focus', 'memo']))],
+                   H('fn', 'oracle_fn', 2000, 100000, spec_level=True, extra=dict(quick=['-focus', 'memo'], thorough=['-focus', 'memo'])),
+                   # the deferred REST handed to FoldRight's step function (iterator/seq/list) is a memoised TailCall: forced twice, evaluated once;
+                   # memoised list cells (Spec/C12List.started_at_most_once) are exercised by the same harness
+                   H('iter', 'oracle_iter', 2000, 200000, spec_level=True, project=project_iter, extra=dict(quick=['-prop', 'C12'], thorough=['-prop', 'C12']))],
         level='proof',
         level_note='trusted: Lean kernel (propext/Classical.choice/Quot.sound only); model fidelity checked by correspondence; '
                    'sync.Once trusted to give the blocking exactly-once semantics modelled in Model/Memo.lean; PARTIAL: constant machine-stack '
